@@ -726,8 +726,9 @@ impl<'a> Gen<'a> {
                         1 => m.len(),
                         _ => m.len() + 1 + self.rng.below(4),
                     };
-                    let pre = (0..n).map(|j| (1000 + j as u32, self.ord())).collect();
-                    Op::CloneFrom { pre }
+                    let self_dst = self.rng.chance(1, 2);
+                    let pre = (0..n).map(|j| (if self_dst { j as u32 % self.prof.universe } else { 1000 + j as u32 }, self.ord())).collect();
+                    Op::CloneFrom { pre, into_self: self_dst }
                 }
             }
             Drain => {
